@@ -107,7 +107,13 @@ impl Prop for C20 {
             let pseudo = match rng.below(5) { 0 => m[..3].to_string(), 1 => other.repeat(m.len()), 2 => other.repeat(m.len() + 2), 3 => format!("{} trailing", m), _ => format!("{}{}", m[..3].to_string(), other.repeat(3)) };
             if pseudo != m { lines.push(pseudo); lines.push(format!("{{{}}}", rel(FILES[i], FILES[(i + 2) % nfiles], &mut rng))); lines.push("{absent.mec}".into()); lines.push(format!("{{{}}}", FILES[i])); }
           }
-          lines.push(format!("{}{}", ind, m));
+          // the genuine closer, decorated the ways the fence rule allows: trailing blanks / tabs, a longer run of the marker, its own indentation
+          {
+            let tail = *rng.pick(&["", "", "  ", "\t", " \t ", " "]);
+            let longer = if rng.chance(1, 4) { m[..1].repeat(1 + rng.below(3) as usize) } else { String::new() };
+            let cind = if rng.chance(1, 3) { *rng.pick(&["", " ", "  ", "   "]) } else { ind };
+            lines.push(format!("{}{}{}{}", cind, m, longer, tail));
+          }
           lines.push("{6 * 7}".into()); lines.push("{foo/bar}".into()); lines.push("x := {a: 1}".into());
           // brace lines that contain ".mec" without ending in it are not includes
           for l in ["{robot.mechanism}", "{archive/notes.mec.bak}", "{cfg.mecanum-wheels}", "{x.mecx}", "{a.mec b}"] { if rng.chance(1, 3) { lines.push(l.into()); } }
